@@ -92,9 +92,21 @@ def gen_case(rng):
     delays = []          # (expr, dur, cats, loop or None)
     nd = rng.randint(1, 3)
     ycount = 0
+    near = None
+    if rng.random() < 0.15:
+        # two durations that differ but print alike with six significant digits
+        nd = 2
+        near = rng.choice([(3600.0, 3600.001), (0.25, 0.2500001), (86400.75, 86400.751), (1.5, 1.5000004)])
+        near_shape = rng.choice(["literal", "literal*parameter", "parameter+literal"])
+        tags.add("durations:differ-beyond-the-sixth-significant-digit")
     for k in range(nd):
         dur, cats = duration(rng)
-        if rng.random() < 0.3:
+        if near:
+            duration.last_form = None
+            dur, cats = {"literal": (num(near[k]), {"literal"}),
+                         "literal*parameter": (("bin", "*", num(near[k]), var("p1")), {"literal", "parameter"}),
+                         "parameter+literal": (("bin", "+", var("p1"), num(near[k])), {"literal", "parameter"})}[near_shape]
+        if rng.random() < 0.3 and not near:
             # inside a for-loop: delayed expression indexed by the loop variable
             inner = ("bin", "*", idx("v", var("i")), rng.choice([var("p1"), num(3), var("c1")]))
             eqs.append("  for i in 1:%d loop\n    w[i] = delay(%s, %s);\n  end for;" % (n, mexpr.to_text(inner), mexpr.to_text(dur)))
